@@ -45,14 +45,47 @@ pub struct EGen {
 }
 
 pub fn egen() -> impl Strategy<Value = EGen> {
-    (any::<u16>(), any::<u16>(), 0u8..8, 0u8..4).prop_map(|(a, k, t, c)| EGen { a, k, t, c })
+    // timestamps: mostly T0 + {0..7} (many ties and late older arrivals), sometimes from the wide table (`ts_of`)
+    let t = prop_oneof![6 => 0u8..8, 1 => 8u8..(8 + WIDE_TS.len() as u8)];
+    (any::<u16>(), any::<u16>(), t, 0u8..4).prop_map(|(a, k, t, c)| EGen { a, k, t, c })
+}
+
+/// Timestamps far from `T0`, on both sides of byte boundaries of the big- and little-endian encodings, at 0 and at the
+/// future bound of the pinned clock (`T0 + 3 + 10 min` is still valid): orders that differ between numeric and byte-wise
+/// comparison show up here and never among `T0 + {0..7}`.
+pub const WIDE_TS: [u64; 16] = [
+    0,
+    1,
+    0xFF,
+    0x100,
+    0xFFFF,
+    0x1_0000,
+    0xFFFF_FFFF,
+    0x1_0000_0000,
+    T0 - 0x100,
+    T0 - 1,
+    T0 + 0xFF,
+    T0 + 0x100,
+    T0 + 0xFFFF,
+    T0 + 0x1_0000,
+    T0 + 599_999_999,
+    T0 + 3 + 600_000_000,
+];
+
+/// `t < 8`: `T0 + t`; otherwise an element of `WIDE_TS` (saved cases written before the table existed only use `t < 8`).
+pub fn ts_of(t: u8) -> u64 {
+    if t < 8 {
+        T0 + t as u64
+    } else {
+        WIDE_TS[(t as usize - 8) % WIDE_TS.len()]
+    }
 }
 
 pub fn to_espec(e: &EGen, authors: &[u8], keys: &[Vec<u8>]) -> ESpec {
     ESpec {
         a: authors[idx(e.a, authors.len())],
         k: keys[idx(e.k, keys.len())].clone(),
-        t: T0 + e.t as u64,
+        t: ts_of(e.t),
         c: e.c,
     }
 }
